@@ -230,3 +230,62 @@ def replay(history, on_job=None):
         return run_history(world, history['events'], on_job=on_job)
     finally:
         world.close()
+
+
+def lifecycle_and_run(seed, on_job=None, mode=None, cfg_override=None, n_prs=None):
+    """'Happy path' family: several pull requests opened before any is merged (so later ones are behind their
+    destination), then each is driven to its merge in a random order with mostly green builds.  Produces many
+    destination movements with non-fast-forward first targets, queue merges of several pull requests, etc."""
+    rng = random.Random(seed * 7919 + 13)
+    cfg = gen_cfg(rng, mode)
+    cfg.update({'peers': 0, 'leaders': 0, 'need_author': False, 'build_key': 'pre-merge'})
+    if cfg_override:
+        cfg.update(cfg_override)
+    world = sysworld.World(cfg)
+    events, log = [], []
+
+    def do(ev):
+        events.append(ev)
+        sub = run_history(world, [ev], on_job=on_job)
+        log.extend(sub)
+        return sub[0]
+    try:
+        gen = Gen(rng, cfg)
+        n = n_prs or rng.choice([2, 2, 3])
+        for _ in range(n):
+            ev = gen.new_pr()
+            if rng.random() < 0.5 and gen.prs[:-1]:
+                ev['dst'] = gen.prs[0]['dst']            # same destination as the first one
+                gen.prs[-1]['dst'] = ev['dst']
+            r = do(ev)
+            gen.prs[-1]['id'] = r.get('res', {}).get('pr')
+        order = list(gen.prs)
+        rng.shuffle(order)
+        for rounds in range(2):
+            for p in order:
+                if p['id'] is None:
+                    continue
+                do({'e': 'job_pr', 'pr': p['id']})
+                for nme in gen.tips_of(p, world.refs()):
+                    st = 'SUCCESSFUL' if rng.random() < 0.9 else rng.choice(STATES)
+                    do({'e': 'build', 'ref': nme, 'state': st})
+                do({'e': 'job_pr', 'pr': p['id']})
+                if rng.random() < 0.3:
+                    continue                                 # leave it queued for a while
+                q = sorted(n for n in world.refs() if n.startswith('q/w/'))
+                for nme in q:
+                    st = 'SUCCESSFUL' if rng.random() < 0.85 else rng.choice(STATES)
+                    do({'e': 'build', 'ref': nme, 'state': st})
+                if q:
+                    do({'e': 'job_commit', 'ref': rng.choice(q)})
+            if rounds == 0 and rng.random() < 0.5:
+                p = rng.choice(order)
+                do({'e': 'push', 'branch': p['src'], 'label': 'late%d' % seed})
+        q = sorted(n for n in world.refs() if n.startswith('q/w/'))
+        for nme in q:
+            do({'e': 'build', 'ref': nme, 'state': 'SUCCESSFUL'})
+        if q:
+            do({'e': 'job_commit', 'ref': q[-1]})
+    finally:
+        world.close()
+    return {'cfg': cfg, 'events': events, 'seed': seed, 'family': 'lifecycle'}, log
